@@ -47,6 +47,7 @@ def decOp (j : Json) : Except String (Nat × Op) := do
     | "attach" => pure (Op.attach (← decStr (← field j "file")) (← decStr (← field j "desc")) (← decBool (← field j "img")))
     | "attachBegin" => pure (Op.attachBegin (← decStr (← field j "file")) (← decStr (← field j "desc")) (← decBool (← field j "img")))
     | "attachEnd" => pure Op.attachEnd
+    | "attachAbort" => pure Op.attachAbort
     | "threadCreate" => pure (Op.threadCreate (← decNat (← field j "new")))
     | "threadRun" => pure Op.threadRun
     | "threadEnd" => pure Op.threadEnd
@@ -94,7 +95,7 @@ def decAct (s : String) : Except String Attach.Act :=
   match s with
   | "acquire" => pure .acquire | "readName" => pure .readName | "readInc" => pure .readInc
   | "writeInc" => pure .writeInc | "release" => pure .release | "writeFile" => pure .writeFile
-  | "fireEvent" => pure .fireEvent
+  | "fireEvent" => pure .fireEvent | "abort" => pure .abort
   | _ => throw s!"unknown act {s}"
 
 open LccModel.Threads in
